@@ -41,6 +41,11 @@ type Obl struct {
 	// (used only to search for candidate counterexamples that are then replayed).
 	DropQuantified bool
 	TimeoutS       int // per-obligation solver timeout override (0 = default)
+	// InstTag: explicit instances of quantified hypotheses generated for this
+	// obligation's skolem constants carry this tag; instances generated for
+	// other obligations are left out of the query (dropping a hypothesis is
+	// sound for proving)
+	InstTag int
 }
 
 type namedTerm struct {
@@ -362,6 +367,17 @@ func (o *Obl) render(withModel bool, tail string, seeds ...string) string {
 		}
 	}
 	all = append(all, o.Extra...)
+	{
+		mine := fmt.Sprintf(" ;INST %d", o.InstTag)
+		kept := all[:0:0]
+		for _, c := range all {
+			if i := strings.LastIndex(c, " ;INST "); i >= 0 && c[i:] != mine {
+				continue
+			}
+			kept = append(kept, c)
+		}
+		all = kept
+	}
 	if o.DropQuantified {
 		// candidate-counterexample mode: quantified hypotheses are dropped (the
 		// model is only believed if it replays on the real code)
